@@ -1229,7 +1229,7 @@ func (c *Ctx) phiSplit(f *ssa.Function, b *ssa.BasicBlock, g siteGoal) bool {
 		v ssa.Value
 		t bool
 	}
-	budget := 400
+	budget := 400 * c.scale()
 	var rec func(blk *ssa.BasicBlock, extras []cond, subst map[ssa.Value]ssa.Value, depth int) bool
 	rec = func(blk *ssa.BasicBlock, extras []cond, subst map[ssa.Value]ssa.Value, depth int) bool {
 		budget--
